@@ -71,6 +71,8 @@ def make_target(world, qualname):
 
 
 def verify_function(world, qualname, timeout_ms=20000, max_paths=3000, only_paths=None):
+    from . import interp as _I
+    _I.FN_STATE.update(start=time.time(), unknown=0, budget_s=max(240.0, 6.0 * timeout_ms / 1000.0))
     res = FunctionResult(qualname)
     t0 = time.time()
     try:
@@ -200,6 +202,8 @@ def verify_function(world, qualname, timeout_ms=20000, max_paths=3000, only_path
 
 
 def verify_lemma(world, name, timeout_ms=20000, max_paths=2000):
+    from . import interp as _I
+    _I.FN_STATE.update(start=time.time(), unknown=0, budget_s=max(240.0, 6.0 * timeout_ms / 1000.0))
     """A side-car lemma: `def lem(args: kinds): requires(..); <proof body of calls/asserts>; ensures(..)`.
     requires(e) assumes e, ensures(e)/assert prove e; a call of another lemma or of the lemma itself
     (induction hypothesis) asserts its requires and assumes its ensures."""
